@@ -33,48 +33,44 @@ def r_C32(root):
     ob("C32", "C32.a", M, W, "candidate keys for class Cls, attribute attr: %s" % got, got == want)
     if got != want:
         out.append(Finding("C32", "C32.a", M, W, " ".join(ast.unparse(lst).split())[:120], "the scope-provider keys are tried in the order %s; documented precedence: %s" % (got, want), witness="providers registered for both '*.attr' and 'Cls.*' (and none for 'Cls.attr')"))
-    # ---- scan
+    # ---- scan: decided by evaluating the selection fragment (from the key list to the last provider call of that block)
+    #      for every subset of registered keys x {provider attached in the grammar or not} x {providers find something or not}
     inst += 1
-    if loop_scan is None:
-        # a different shape: look for a loop that calls its loop variable as a provider and breaks on the result
-        chained = None
-        for n in own_nodes(fn):
-            if isinstance(n, ast.For) and isinstance(n.target, ast.Name):
-                called = [c for c in calls(n) if isinstance(c.func, ast.Name) and c.func.id == n.target.id]
-                brk = [b for b in ast.walk(n) if isinstance(b, ast.Break)]
-                if called and brk and any(any("resolved" in ast.unparse(g) or "result" in ast.unparse(g) for g, p in fi.guards(b)) for b in brk): chained = n
-        if chained is not None:
-            out.append(Finding("C32", "C32.a", M, W, " ".join(ast.unparse(chained).split())[:120], "the registered providers are chained: when the most specific provider finds nothing, the next less specific one is asked, so a reference that should be unknown resolves through a provider that the precedence rule excludes", witness="two registered keys matching one reference, a name only the less specific provider can find"))
-            ob("C32", "C32.a", M, W, "first registered key decides", False)
-        else: raise AnalysisError("scan loop over the candidate keys not found")
-    else:
-        oks = True
-        brks = [b for b in ast.walk(loop_scan) if isinstance(b, ast.Break)]
-        callp = [c for c in calls(loop_scan) if isinstance(c.func, ast.Subscript) and "scope_providers" in ast.unparse(c.func.value)]
-        selected = None
-        if brks and not callp:
-            # idiom: the loop only *selects* the provider (P = table[key]; break), a default is bound before the loop (or in its else), the call follows
-            sel = [a for a in ast.walk(loop_scan) if isinstance(a, ast.Assign) and isinstance(a.targets[0], ast.Name) and isinstance(a.value, ast.Subscript) and "scope_providers" in ast.unparse(a.value.value)]
-            if sel:
-                pv = sel[0].targets[0].id
-                n_ = fi.node_of(loop_scan); dflt = [fi.cfg.nodes[d_].ast for d_ in fi.rd.defs_of(n_, pv)] if n_ is not None else []
-                dflt_ok = any(isinstance(a, ast.Assign) and ("default" in ast.unparse(a.value)) for a in dflt) or any("default" in ast.unparse(s_) for s_ in loop_scan.orelse)
-                called = [c for c in calls(fn, own=True) if isinstance(c.func, ast.Name) and c.func.id == pv and [ast.unparse(a) for a in c.args] == [R_obj, R_attr, R_ref]]
-                if dflt_ok and called: selected = pv
-        if selected is None and (not brks or not callp or not loop_scan.orelse):
-            oks = False; out.append(Finding("C32", "C32.a", M, W, "for %s in %s" % (ast.unparse(loop_scan.target), keyvar), "the scan over the candidate keys is not 'first registered key decides, default provider otherwise'"))
-        for b in brks:
-            for g, pol in fi.guards(b):
-                if not any(a is loop_scan for a in ancestors(g)): continue
-                if "scope_providers" in ast.unparse(g): continue
-                oks = False
-                out.append(Finding("C32", "C32.a", M, W, "break under " + ast.unparse(g)[:80], "the scan ends only if %s: a less specific provider is asked after a more specific registered one" % ast.unparse(g)[:60], witness="two registered keys matching one reference"))
-        if selected is None and loop_scan.orelse and not any(callee_name(c) in ("default_scope", "DefaultScopeProvider") or "default" in ast.unparse(c.func) for s in loop_scan.orelse for c in calls(s)):
-            oks = False; out.append(Finding("C32", "C32.a", M, W, "for ... else", "without a registered key the default provider is not used"))
-        gl = fi.guards(loop_scan.iter)
-        if not any(ast.unparse(tst).replace(" ", "") == "crossref.scope_providerisnotNone" and pol is False for tst, pol in gl):
-            oks = False; out.append(Finding("C32", "C32.a", M, W, "for %s in %s" % (ast.unparse(loop_scan.target), keyvar), "registered providers are not subordinate to the provider given in the grammar (RREL)"))
-        ob("C32", "C32.a", M, W, "first registered key decides; default otherwise; grammar RREL first", oks)
+    blk = None
+    for n in ast.walk(fn):
+        for fld in ("body", "orelse", "finalbody"):
+            b = getattr(n, fld, None)
+            if isinstance(b, list) and any(x is lst for x in b): blk = b
+    if blk is None: raise AnalysisError("block of the key list not found")
+    from sa.rules import gen as _gen
+    def is_pcall(c): return _gen._is_provider_call(c) or [ast.unparse(a) for a in c.args] == [R_obj, R_attr, R_ref]
+    i0 = next(i for i, x in enumerate(blk) if x is lst)
+    last = max([i for i, x in enumerate(blk) if i >= i0 and any(is_pcall(c) for c in calls(x))], default=None)
+    if last is None: raise AnalysisError("no provider call after the key list in resolve_one_step")
+    frag = blk[i0:last + 1]
+    import itertools
+    bad = None; n_cfg = 0
+    for attached in (False, True):
+        for k in range(0, 5):
+            for reg in itertools.combinations(want, k):
+                for ret in ("result", None):
+                    log = []
+                    table = {key: pyeval.Callee("registered:" + key, log, ret) for key in reg}
+                    env = {"%s.__class__.__name__" % R_obj: "Cls", "type(%s).__name__" % R_obj: "Cls", "%s.name" % R_attr: "attr", R_obj: {".kind": "obj"}, R_attr: {".name": "attr"}, R_ref: {".kind": "ref"},
+                           "%s.scope_provider" % R_ref: pyeval.Callee("attached", log, ret) if attached else None,
+                           "metamodel.scope_providers": table, "self.parser.metamodel.scope_providers": table, "default_scope": pyeval.Callee("default", log, ret),
+                           "self.parser.debug": False, "self.debug": False, "metamodel.debug": False}
+                    try: pyeval.run_block(frag, env)
+                    except pyeval.Unsupported as e: raise AnalysisError("provider selection in resolve_one_step: outside the evaluated subset: %s" % e)
+                    except pyeval.Raised as e: log.append("raise " + e.cls)
+                    expect = ["attached"] if attached else (["registered:" + next(key for key in want if key in reg)] if reg else ["default"])
+                    n_cfg += 1
+                    if log != expect and bad is None: bad = (attached, reg, ret, log, expect)
+    oks = bad is None
+    ob("C32", "C32.a", M, W, "provider selection evaluated for %d configurations (registered key subsets x attached x provider result): grammar RREL first, then the first registered key in precedence order, default otherwise, exactly one provider asked" % n_cfg, oks)
+    if bad:
+        attached, reg, ret, log, expect = bad
+        out.append(Finding("C32", "C32.a", M, W, "registered keys %s, provider in grammar: %s, providers %s" % (list(reg), attached, "find nothing" if ret is None else "find an object"), "the providers asked are %s, documented: %s (a provider given in the grammar first, else the first registered key of %s decides whatever it returns, else the default provider)" % (log, expect, want), witness="providers registered for %s" % list(reg)))
     # ---- C32.b
     mm = load(root, MM); rg = find(mm, "TextXMetaModel.register_scope_providers"); inst += 2
     p0 = rg.args.args[1].arg
@@ -86,4 +82,28 @@ def r_C32(root):
     okb = bool(conv) and any("isinstance" in ast.unparse(g) and "str" in ast.unparse(g) for c in conv for g, p in sem.info(rg).guards(c))
     ob("C32", "C32.b", MM, "TextXMetaModel.register_scope_providers", "string values become RREL providers", okb)
     if not okb: out.append(Finding("C32", "C32.b", MM, "TextXMetaModel.register_scope_providers", "create_rrel_scope_provider", "string values of the provider table are not converted to RREL providers"))
+    return inst, out
+
+def r_C32c(root):
+    """C32.c  a provider built from an RREL *string* (register_scope_providers) and one built from the parsed expression
+       of a grammar reference are configured alike: in create_rrel_scope_provider every read of the expression's flags
+       (use_proxy, importURI) happens after the string has been parsed — no path reaches such a read without passing the
+       `isinstance(x, str)` conversion."""
+    R = "textx/scoping/rrel.py"; out = []; inst = 0
+    fn = find(load(root, R), "create_rrel_scope_provider"); fi = sem.info(fn); cfg = fi.cfg
+    p0 = fn.args.args[0].arg
+    conv = [n for n in cfg.nodes if n.kind == "cond" and n.ast is not None and "isinstance(%s,str)" % p0 in ast.unparse(n.ast).replace(" ", "")]
+    if not conv: raise AnalysisError("create_rrel_scope_provider: string-to-expression conversion not found")
+    reads = []
+    for n in own_nodes(fn):
+        if isinstance(n, ast.Attribute) and n.attr in ("use_proxy", "importURI") and isinstance(n.ctx, ast.Load) and isinstance(n.value, ast.Name): reads.append(n)
+        elif isinstance(n, ast.Call) and callee_name(n) == "getattr" and len(n.args) >= 2 and isinstance(n.args[1], ast.Constant) and n.args[1].value in ("use_proxy", "importURI"): reads.append(n)
+    if not reads: raise AnalysisError("create_rrel_scope_provider: reads of the expression's flags not found")
+    for r in reads:
+        inst += 1
+        nd = fi.node_of(r)
+        early = nd is not None and cfg.paths_avoiding(cfg.entry, nd, lambda m: m in conv)
+        for pr in ("C32", "C11"): ob(pr, "C32.c", R, "create_rrel_scope_provider", "flag read %s after the string was parsed" % " ".join(ast.unparse(r).split()), not early)
+        if early:
+            for pr in ("C32", "C11"): out.append(Finding(pr, "C32.c", R, "create_rrel_scope_provider", " ".join(ast.unparse(stmt_of(r)).split())[:100], "the flag is read before an RREL string is parsed: a provider registered as a string ('+p:...', '+m:...') is built without its flags, the same expression written in the grammar keeps them", witness="register_scope_providers({'*.*': '+p:a.b'}) against [T|FQN|+p:a.b] in the grammar"))
     return inst, out
